@@ -131,7 +131,7 @@ func (c *PlanCache) Get(schema *Schema, query, operationName string) PlanResult 
 
 	if !c.opts.Normalize {
 		// Plain cache: raw query string is the key.
-		key := operationName + "\x00" + query
+		key := cacheKeyPrefix(operationName) + query
 		if pr, ok := c.lookup(schema, key); ok {
 			return pr
 		}
@@ -164,7 +164,7 @@ func (c *PlanCache) Get(schema *Schema, query, operationName string) PlanResult 
 		_, _ = h.Write([]byte(query))
 		normKey = "raw:" + strconv.FormatUint(h.Sum64(), 16)
 	}
-	cacheKey := operationName + "\x00" + normKey
+	cacheKey := cacheKeyPrefix(operationName) + normKey
 	if pr, ok := c.lookup(schema, cacheKey); ok {
 		// Stash this call's synthArgs onto the returned result.
 		// The cached PlanResult deliberately stores no synthArgs
@@ -209,6 +209,13 @@ func (c *PlanCache) Reset() {
 	defer c.mu.Unlock()
 	c.entries = make(map[string]*list.Element, c.opts.MaxEntries)
 	c.order = list.New()
+}
+
+// cacheKeyPrefix encodes the operation name so that no (operationName,
+// query) pair can produce the key of another pair, whatever bytes they
+// contain.
+func cacheKeyPrefix(operationName string) string {
+	return strconv.Itoa(len(operationName)) + ":" + operationName + "\x00"
 }
 
 func (c *PlanCache) shouldCache(querySize int) bool {
